@@ -377,7 +377,7 @@ class ToThreadRun:
         case = self.case
         self.sim = sim = SimRun(case["sched_seed"], LoopConfig.from_json(case["loop"]), loop_cls=BatonLoop)
         self.faults = sim.faults
-        sched = baton.begin(random.Random(f"baton:{case['sched_seed']}"), sim.faults, "loop", preempt=case.get("preempt", 0))
+        sched = baton.begin(random.Random(f"baton:{case['sched_seed']}"), sim.faults, "loop", preempt=case.get("preempt", 0), suppress=case.get("suppress", ()))
         sched.on_switch = lambda who, where, nxt: self.h.rec("preempted", who, where, "->", nxt)
         snap = {}
 
@@ -422,7 +422,8 @@ class ToThreadRun:
         return {"violations": self.viol, "digest": dig, "faults": dict(self.faults), "nontrivial": self.nontrivial,
                 "vtime": loop._vnow if loop else 0.0, "iters": loop.iterations if loop else 0, "steps": self.h.seq + len(sched.log),
                 "probes": self.probes, "cfg": [("eager" if case["loop"]["eager"] else "stock") + ":limiter=" + str(case["total"])],
-                "history_text": self.h.text(120), "decisions": sched.decisions}
+                "history_text": self.h.text(120), "decisions": sched.decisions,
+                "switch_ordinals": list(sched.switch_ords)}
 
 
 class _null:
@@ -442,6 +443,20 @@ def shrinks(case):
         c = copy.deepcopy(case)
         c["preempt"] = 0
         yield c
+        # schedule minimisation: drop, one at a time, the line pre-emptions that switched threads
+        try:
+            ords = ToThreadRun(copy.deepcopy(case)).execute().get("switch_ordinals", [])
+        except Exception:
+            ords = []
+        have = set(case.get("suppress", ()))
+        ords = [o for o in ords if o not in have]
+        size = len(ords)
+        while size >= 1:                      # ddmin-style: big chunks first, single switches last
+            for i in range(0, len(ords), size):
+                c = copy.deepcopy(case)
+                c["suppress"] = sorted(have | set(ords[i:i + size]))
+                yield c
+            size //= 2
     for i in range(len(case["callers"])):
         if len(case["callers"]) > 1:
             c = copy.deepcopy(case)
@@ -475,6 +490,8 @@ def shrinks(case):
 
 
 class ToThreadCheck:
+    shrink_runs = 3000      # races need many re-executions: program shrinking, derived schedule seeds, pre-emption ddmin
+    shrink_s = 150
     prop = "C14"
     engine = "threads-to_thread"
     level = "exploration"
